@@ -30,7 +30,11 @@ class C38(Spec):
                   "with a password change, and concurrent generated request mixes (every 'unlocked' observation / returned key must "
                   "be explained in real time by a successful unlock not followed by a completed lock), predicate evaluated on the "
                   "implementation.")
-    level_note = ("A wallet with a saved seed is modelled. sync.Mutex, sync/atomic and time.AfterFunc are taken as specified by Go. "
+    level_note = ("A wallet with a saved seed is modelled. No time is modelled: 'before the unlock timeout' means 'before the timer "
+                  "callback fires' (label timer, enabled iff a timer is armed); that it fires after Timeout seconds is runtime "
+                  "behaviour, exercised with the real 1 s timer by the harness. Which handlers count as `guarded` is a harness "
+                  "fact (ten request types through the message loop), not a Lean fact; the regression_old_* theorems are "
+                  "kernel-evaluated literal traces about older variants. sync.Mutex, sync/atomic and time.AfterFunc are taken as specified by Go. "
                   "The check found two defects in the code before fd9f097 (transient unlock during a password change, also with a "
                   "wrong old password; a Lock/timeout between the load and the CAS of the temporary unlock was lost and the wallet "
                   "stayed unlocked), reproduced both on the real wallet, and they were repaired in /repo; the theorems named "
